@@ -658,6 +658,7 @@ static void exec_op(const Op& op, int idx) {
   T->cur_op = idx;
   os_set_context(T->prog, idx);
   sched_harness_point(idx);
+  sched_set_op(op.uid >= 0 ? op.uid : idx);
   sched_call_begin();
   T->expect_err_mask = 0; T->note[0] = 0;
   H.ops_executed++;
